@@ -163,7 +163,7 @@ impl<'a> Tokenizer<'a> {
                 return Err(Error::ExpectedOpNotExist(op.to_string()));
             }
         }
-        Ok(())
+        Err(Error::ExpectedOpNotExist(op.to_string()))
     }
 
     fn delim_token(&mut self, start: usize) -> Result<Token<'a>> {
